@@ -109,14 +109,37 @@ def notReagreedInFlight (t : Trace) : Bool :=
     | none => true
     | some rd => rd.agreed.all fun u => !(!t.correct.isEmpty && t.correct.all (fun h => inFlight t h r u.workID))
 
+/-- the most recent restart of member `h` at or before round `r` (0 if none); restarts happen at the start of a round -/
+def lastRestart (restarts : List (Nat × Nat)) (h r : Nat) : Nat :=
+  ((restarts.filter (fun p => p.1 == h && decide (p.2 ≤ r))).map (·.2)).foldl max 0
+
+/-- S4: a member is willing to transmit a report only if, since its last restart, it was handed (ShouldAccept) a report
+carrying the same unit of work at the same check block for at least one of the report's upkeeps -/
+def transmitOnlyAcceptedSinceRestart (t : Trace) (restarts : List (Nat × Nat)) : Bool :=
+  t.queries.all fun q =>
+    if !q.isAccept && q.transmit && t.honest.contains q.node then
+      match reportOf t q.report with
+      | none => false
+      | some r =>
+        let since := lastRestart restarts q.node q.round
+        r.upkeeps.any fun u =>
+          t.queries.any fun a =>
+            a.isAccept && a.node == q.node && decide (since ≤ a.round) && decide (a.round ≤ q.round) &&
+            (match reportOf t a.report with
+             | some ra => ra.upkeeps.any (fun v => v.workID == u.workID && decide (v.trigger.blockNumber = u.trigger.blockNumber))
+             | none => false)
+    else true
+
 /-- all honest members computed the same outcome bytes in every round (C02 at network level) -/
 def outcomesAgree (t : Trace) : Bool := t.rounds.all (fun rd => !rd.disagree)
 
-def spec (t : Trace) : Bool :=
-  transmitVouched t && oneReportPerWork t && notReagreedInFlight t && outcomesAgree t
+def spec (t : Trace) (restarts : List (Nat × Nat)) : Bool :=
+  transmitVouched t && oneReportPerWork t && notReagreedInFlight t && outcomesAgree t &&
+  transmitOnlyAcceptedSinceRestart t restarts
 
-def explain (t : Trace) : String :=
-  if !outcomesAgree t then "honest members computed different outcome bytes for the same round"
+def explain (t : Trace) (restarts : List (Nat × Nat)) : String :=
+  if !transmitOnlyAcceptedSinceRestart t restarts then "a member is willing to transmit a report it has not accepted since its last restart (no acceptance of that unit of work at that check block)"
+  else if !outcomesAgree t then "honest members computed different outcome bytes for the same round"
   else if !transmitVouched t then "an honest member is willing to transmit an upkeep that no honest pipeline found eligible with identical data, or that fewer than f+1 validated observations vouched for"
   else if !oneReportPerWork t then "two-reports-one-work: an honest member is willing to transmit two different reports for the same unit of work at once"
   else if !notReagreedInFlight t then "a unit of work was agreed again while in flight on every correct member"
